@@ -5,6 +5,14 @@ From MV Require Util.PluginRef.
 From MV Require IH5.OverlayRun.
 From MV Require Util.Diff.
 From MV Require Util.DirHash.
+From MV Require Rec.Chain.
+From MV Require Schema.Partial.
+From MV Require Schema.RoundTrip.
+From MV Require IH5.Bytes.
+From MV Require Rec.Modes.
+From MV Require Toc.Acl.
+From MV Require Schema.Subtype.
+From MV Require Toc.UserView.
 Import ListNotations.
 Local Open Scope string_scope.
 
@@ -14,5 +22,13 @@ Definition dispatch (x : sx) : sx :=
   | L [A "c01"; c] => IH5.OverlayRun.run_c01 c
   | L [A "c18"; c] => Util.Diff.run_c18 c
   | L [A "c19"; c] => Util.DirHash.run_c19 c
+  | L [A "c04"; c] => Rec.Chain.run_c04 c
+  | L [A "c14"; c] => Schema.Partial.run_c14 c
+  | L [A "c12"; c] => Schema.RoundTrip.run_c12 c
+  | L [A "c17"; c] => IH5.Bytes.run_c17 c
+  | L [A "c03"; c] => Rec.Modes.run_c03 c
+  | L [A "c15"; c] => Toc.Acl.run_c15 c
+  | L [A "c13"; c] => Schema.Subtype.run_c13 c
+  | L [A "c08"; c] => Toc.UserView.run_c08 c
   | _ => sx_bad "dispatch"
   end.
